@@ -454,11 +454,21 @@ func (g *gen) stepUpdate() {
 	}
 	if g.chance(4) {
 		in["remove_blobber_id"] = g.blobberOf(a).key.ID
-		variant += "-removeonly"
 	}
+	// the input class is named after what the request finally contains: add + remove = replace (of a live or of a
+	// killed / shut-down blobber), remove alone is refused by the contract
 	tb := ""
+	_, hasAdd := in["add_blobber_id"]
 	if id, ok := in["remove_blobber_id"].(string); ok {
 		tb = id
+		if hasAdd {
+			variant = "replace"
+			if pb := findBlobber(g.prev, id); pb != nil && (pb.Killed || pb.ShutDown) {
+				variant = "replace-killed"
+			}
+		} else {
+			variant += "-removeonly"
+		}
 	}
 	if g.isEnt(a) {
 		variant = "ent-" + variant
